@@ -32,6 +32,44 @@ def w_hist(ops, rng, n):
     gen_url.history_workload(ops, rng, n)
 
 
+# ---- direction B: behaviours explored by TLC on the bounded model, replayed on the real code
+MC_BEHAVIOURS = []
+
+
+def collect_behaviours(r, cov, problems):
+    import json as _json
+    n = 0
+    for ln in r['out'].splitlines():
+        if ln.startswith('"@@B '):
+            try:
+                rec = _json.loads(_json.loads(ln)[4:])
+            except ValueError:
+                continue
+            MC_BEHAVIOURS.append(rec)
+            n += 1
+    cov['tlc_behaviours_emitted'] = cov.get('tlc_behaviours_emitted', 0) + n
+    if n == 0:
+        problems.append('the model run emitted no behaviours for replay')
+
+
+def w_mc_replay(ops, rng, n):
+    for rec in MC_BEHAVIOURS:
+        ops.reset()
+        inp = bytes(rec['i'])
+        if rec['b'] == [-1]:
+            ops.parse(2, 0, inp)
+            ops.canparse(inp)
+        else:
+            base = bytes(rec['b'])
+            ops.parse(1, 0, base)
+            ops.parse(2, 1, inp)
+            ops.canparse(inp, base)
+
+
+W_MC_REPLAY = dict(name='tlc-behaviours-replayed', gen=w_mc_replay, replayable=True)
+M_PARSER = dict(module='MC_Parser', cfg_quick='MC_Parser_quick', cfg_thorough='MC_Parser_thorough', post=[collect_behaviours],
+                timeout=3000)
+
 W_WPT_URL = dict(name='wpt-url', gen=w_wpt_url)
 W_WPT_SET = dict(name='wpt-setters', gen=w_wpt_setters)
 
@@ -51,9 +89,8 @@ ASSUME_URL = ['the TLA+ transcription of the WHATWG URL Standard (spec/*.tla) is
               'inputs are valid UTF-8']
 
 PROPS = {
-    'C01': dict(level=MC, rule=RULE, assumptions=ASSUME_URL,
-                
-                workloads=[W_WPT_URL, W_PARSE(2500, 60000)]),
+    'C01': dict(level=MC, rule=RULE, assumptions=ASSUME_URL, models=[M_PARSER],
+                workloads=[W_MC_REPLAY, W_WPT_URL, W_PARSE(2500, 60000)]),
     'C03': dict(level=MC, rule=RULE, assumptions=ASSUME_URL,
                 workloads=[W_WPT_SET, W_HIST(700, 20000)]),
     'C04': dict(level=MC, rule=RULE, assumptions=ASSUME_URL,
